@@ -37,6 +37,7 @@ def check(rep: Report, ctx: Ctx) -> None:
     r145(rep, ctx)
     r146(rep, ctx)
     r147(rep, ctx)
+    r148(rep, ctx)
 
 
 def r141(rep: Report, ctx: Ctx) -> None:
@@ -685,3 +686,27 @@ def r147(rep: Report, ctx: Ctx) -> None:
            "transformed", kind="ret", name="", args=(T1,),
            may=[("truth", f"isinstance({src},dict)", "1")])
     untouched(one, effs, T1)
+
+
+def r148(rep: Report, ctx: Ctx) -> None:
+    """The two-step route hands the PV event sequences over through files:
+    a job whose file could not be written is a job the second step never
+    learns from, while the one-step route has it in memory.  A failed save
+    must therefore abort otel2pv - no handler that completes normally
+    encloses the saving of a job's events (seed C14-x: `except OSError:
+    continue with the next job name`)."""
+    from .util import swallowing_handlers
+    rep.rule("R14.8", "a job file that cannot be written aborts the export "
+             "(no swallowing handler around the save)", 1)
+    entry = ctx.func("otel_to_pv")
+    saver = ctx.func("handle_save_events")
+    bad, n_try = swallowing_handlers(ctx, entry, {saver.qualname})
+    rep.ob("R14.8", "no handler that completes normally encloses a call "
+           "reaching handle_save_events", not bad,
+           fi=bad[0][0] if bad else entry,
+           node=bad[0][1] if bad else entry.node,
+           detail=(f"handler '{unparse(bad[0][1])[:70]}' in "
+                   f"{bad[0][0].short} lets the export go on after a failed "
+                   "save: the saved folder silently lacks jobs" if bad else
+                   f"{n_try} try statement(s) in the closure of otel_to_pv, "
+                   "none around the save"))
